@@ -1637,6 +1637,9 @@ class ExtendedToOriginalDecorator:
 
     def startTestRun(self):
         self._tags = TagContext()
+        # A new run starts unstopped: forget the stop we keep on behalf of a
+        # result that has no shouldStop of its own.
+        self._shouldStop = False
         try:
             return self.decorated.startTestRun()
         except AttributeError:
